@@ -9,7 +9,7 @@ def _note_tr(res, inp, ver):
     if "tr" in ver:
         res.extra["tr_evals"] = res.extra.get("tr_evals", 0) + 1
         if ver["tr"] is False:
-            res.extra.setdefault("tr_diffs", []).append({"p": inp.get("p"), "f": inp.get("f"), "bs": inp.get("bs"), "diff": ver.get("trDiff")})
+            res.extra.setdefault("tr_diffs", []).append({"p": inp.get("p"), "f": inp.get("f"), "bs": inp.get("bs"), "tspec": inp.get("tspec"), "diff": ver.get("trDiff")})
 
 
 def analyze_match(oracles):
